@@ -13,6 +13,8 @@ pub mod c11;
 pub mod c12;
 pub mod c13;
 pub mod c14;
+pub mod c15;
+pub mod c15_rows;
 pub mod c16;
 pub mod c17;
 pub mod c18;
@@ -37,6 +39,7 @@ pub fn lookup(id: &str) -> Option<Box<dyn Prop>> {
         "C12" => Box::new(c12::C12),
         "C13" => Box::new(c13::C13),
         "C14" => Box::new(c14::C14),
+        "C15" => Box::new(c15::C15),
         "C16" => Box::new(c16::C16),
         "C17" => Box::new(c17::C17),
         "C18" => Box::new(c18::C18),
